@@ -1,103 +1,204 @@
-(* C12 — the header scan loop of BuildIndex over an abstract tar stream: the offset
-   it computes is the offset of the first end-of-archive block. *)
+(* C12 — the header scan loop of BuildIndex over a tar stream of raw header records:
+   archive/tar's position bookkeeping per record kind puts the file offset, after each
+   Next(), at the start of that member's body; hence the offset BuildIndex computes is
+   the offset of the first end-of-archive block. *)
 From Apko Require Import Base.Prelude Base.C12Lib Generated.C12Oci Model.Oci Spec.OciSpec Proofs.OciProofs.
 Open Scope string_scope. Open Scope list_scope.
-
-Definition WfMember (m : member) : Prop := (1 <= m_hdr m)%Z /\ (0 <= m_size m)%Z.
 
 Lemma padded_spec n : (0 <= n)%Z -> (512 | padded n)%Z /\ (n <= padded n)%Z /\ (padded n < n + 512)%Z.
 Proof.
   intro H. unfold padded. split; [apply Z.divide_factor_r|].
   pose proof (Z.div_mod (n + 511) 512). pose proof (Z.mod_pos_bound (n + 511) 512). lia.
 Qed.
+Lemma padded_divide n : (512 | padded n)%Z.
+Proof. unfold padded. apply Z.divide_factor_r. Qed.
 
-Lemma member_len_spec m : WfMember m -> (512 | member_len m)%Z /\ (0 < member_len m)%Z.
+Lemma rec_len_spec r : RawOk r -> (512 | rec_len r)%Z /\ (0 < rec_len r)%Z.
 Proof.
-  intros [H1 H2]. destruct (padded_spec _ H2) as (D & L & _). unfold member_len. split.
-  - apply Z.divide_add_r; [apply Z.divide_factor_l | exact D].
-  - lia.
+  intro W. unfold rec_len, data_len. split.
+  - apply Z.divide_add_r; [exists 1%Z; lia|]. destruct (r_kind r); [apply padded_divide|apply Z.divide_0_r|apply padded_divide|apply padded_divide].
+  - unfold RawOk in W. destruct (r_kind r); try lia; (assert (0 <= r_size r)%Z as H by lia; destruct (padded_spec _ H) as (_ & L & _); lia).
 Qed.
 
 Lemma next_boundary_unique b n o1 o2 : NextBoundary b n o1 -> NextBoundary b n o2 -> o1 = o2.
 Proof. intros (D1 & L1 & M1) (D2 & L2 & M2). pose proof (M1 o2 D2 L2). pose proof (M2 o1 D1 L1). lia. Qed.
 
-(* on a block boundary the translated arithmetic is "position + padded size" *)
-Lemma append_offset_aligned pos size : (0 <= pos)%Z -> (0 <= size)%Z -> (512 | pos)%Z ->
-  append_offset pos size = (pos + padded size)%Z.
+(* the translated arithmetic on a position [q + extra] with q on a block boundary *)
+Lemma append_offset_from_boundary q extra size : (0 <= q)%Z -> (512 | q)%Z -> (0 <= extra)%Z -> (0 <= size)%Z ->
+  append_offset (q + extra) size = (q + padded (extra + size))%Z.
 Proof.
-  intros Hp Hs [k Hk]. destruct (append_offset_next_boundary pos size Hp Hs) as [NB _].
-  apply (next_boundary_unique tar_block (pos + size)); [exact NB|].
-  destruct (padded_spec size Hs) as ([j Hj] & L & U). unfold tar_block. split; [|split].
+  intros Hq [k Hk] He Hs. destruct (append_offset_next_boundary (q + extra) size ltac:(lia) Hs) as [NB _].
+  apply (next_boundary_unique tar_block (q + extra + size)); [exact NB|].
+  destruct (padded_spec (extra + size) ltac:(lia)) as ([j Hj] & L & U). unfold tar_block. split; [|split].
   - exists (k + j)%Z. lia.
   - lia.
   - intros m [i ->] Hm. lia.
 Qed.
 
+(* ---- one call of Next(): the position bookkeeping --------------------------------------
+   [off] = pos + pend is the offset of the next header record. After a successful call the
+   reader stands at the start of the returned member's body (first entry of body_starts),
+   and pos + pend is again the offset of the record after that member. *)
+Lemma rd_next_spec : forall rs pos pend, Forall RawOk rs ->
+  match rd_next rs pos pend with
+  | (NHdr z, rest, p, pe) =>
+      body_starts (pos + pend) rs = (p, z) :: body_starts (p + pe) rest /\
+      (pos + pend + stream_len rs = p + pe + stream_len rest)%Z /\
+      (List.length rest < List.length rs)%nat /\ Forall RawOk rest
+  | (NEOF, rest, p, pe) => body_starts (pos + pend) rs = [] /\ rest = []
+  | (NErr, _, _, _) => False
+  end.
+Proof.
+  induction rs as [|r t IH]; intros pos pend W; [cbn; auto|].
+  pose proof (Forall_inv W) as Wr. pose proof (Forall_inv_tail W) as Wt.
+  cbn [rd_next body_starts stream_len]. unfold RawOk in Wr. unfold rec_len, data_len.
+  destruct (r_kind r) eqn:K.
+  - replace (r_size r <? 0)%Z with false by (symmetry; apply Z.ltb_ge; lia).
+    (split; [|split; [|split]]; [f_equal; try (f_equal; lia) | lia | cbn; lia | exact Wt]).
+  - (split; [|split; [|split]]; [f_equal; try (f_equal; lia) | lia | cbn; lia | exact Wt]).
+  - replace (r_size r <? 0)%Z with false by (symmetry; apply Z.ltb_ge; lia).
+    replace (max_special_file_size <? r_size r)%Z with false by (symmetry; apply Z.ltb_ge; lia).
+    cbn [orb]. specialize (IH (pos + pend + 512 + r_size r)%Z (padded (r_size r) - r_size r)%Z Wt).
+    replace (pos + pend + 512 + r_size r + (padded (r_size r) - r_size r))%Z with (pos + pend + (512 + padded (r_size r)))%Z in IH by lia.
+    destruct (rd_next t (pos + pend + 512 + r_size r) (padded (r_size r) - r_size r)) as [[[res rest] p] pe].
+    destruct res; [|exact IH|exact IH].
+    destruct IH as (B & L & N & Wr'). (split; [|split; [|split]]; [exact B | lia | cbn; lia | exact Wr']).
+  - replace (r_size r <? 0)%Z with false by (symmetry; apply Z.ltb_ge; lia).
+    replace (max_special_file_size <? r_size r)%Z with false by (symmetry; apply Z.ltb_ge; lia).
+    cbn [orb]. (split; [|split; [|split]]; [f_equal; try (f_equal; lia) | lia | cbn; lia | exact Wt]).
+Qed.
+
+(* the observable bookkeeping: after the i-th successful Next() the file offset is the start
+   of the i-th member's body, for every stream *)
+Lemma reader_trace_from_spec : forall fuel rs pos pend, Forall RawOk rs -> (List.length rs < fuel)%nat ->
+  reader_trace_from fuel rs pos pend = body_starts (pos + pend) rs.
+Proof.
+  induction fuel as [|fuel IH]; intros rs pos pend W F; [lia|].
+  cbn [reader_trace_from]. pose proof (rd_next_spec rs pos pend W) as S1.
+  destruct (rd_next rs pos pend) as [[[res rest] p] pe]. destruct res.
+  - destruct S1 as (B & _ & N & W'). rewrite B. f_equal. apply IH; [exact W'|lia].
+  - destruct S1 as [B _]. rewrite B. reflexivity.
+  - contradiction.
+Qed.
+
+Lemma reader_trace_spec rs : Forall RawOk rs -> reader_trace rs = body_starts 0 rs.
+Proof. intro W. unfold reader_trace. apply (reader_trace_from_spec _ rs 0%Z 0%Z W). lia. Qed.
+
 (* ---- one iteration of the loop (the generated body, evaluated symbolically) ------------ *)
-Lemma body_member s m t : s_rest s = m :: t ->
-  exists s', run_body scan_body s = Cont s' /\ s_rest s' = t /\
-    s_pos s' = (s_pos s + s_pend s + 512 * m_hdr m)%Z /\ s_pend s' = padded (m_size m) /\
-    ilookup pad_pos_var (s_env s') = s_pos s' /\ ilookup pad_size_var (s_env s') = m_size m.
+Lemma body_iteration s : Forall RawOk (s_rest s) ->
+  match rd_next (s_rest s) (s_pos s) (s_pend s) with
+  | (NHdr z, rest, p, pe) =>
+      exists s', run_body scan_body s = Cont s' /\ s_rest s' = rest /\ s_pos s' = p /\ s_pend s' = pe /\
+        ilookup pad_pos_var (s_env s') = p /\ ilookup pad_size_var (s_env s') = z
+  | (NEOF, _, _, _) => exists s', run_body scan_body s = Brk s' /\ s_env s' = s_env s
+  | (NErr, _, _, _) => False
+  end.
 Proof.
-  intro E. destruct s as [rest pos pend cur err env]. cbn [s_rest] in E. subst rest.
-  eexists. split; [reflexivity|]. cbn. repeat split.
+  intro W. pose proof (rd_next_spec _ (s_pos s) (s_pend s) W) as S1.
+  destruct s as [rest0 pos pend cur err env]. cbn [s_rest s_pos s_pend] in *.
+  destruct (rd_next rest0 pos pend) as [[[res rest] p] pe] eqn:E. destruct res.
+  - eexists. split; [cbn; rewrite E; reflexivity|]. cbn. repeat split.
+  - eexists. split; [cbn; rewrite E; reflexivity|]. reflexivity.
+  - exact S1.
 Qed.
 
-Lemma body_eof s : s_rest s = [] -> exists s', run_body scan_body s = Brk s' /\ s_env s' = s_env s.
+Lemma last_cons_default {A} : forall (l : list A) x d, List.last (x :: l) d = List.last l x.
 Proof.
-  intro E. destruct s as [rest pos pend cur err env]. cbn [s_rest] in E. subst rest.
-  eexists. split; [reflexivity|]. reflexivity.
+  induction l as [|y l IH]; intros x d; [reflexivity|].
+  change (List.last (x :: y :: l) d) with (List.last (y :: l) d). rewrite !IH. reflexivity.
 Qed.
 
-(* invariant: [off] = offset of the next member = end of everything read so far *)
-Lemma scan_loop_inv : forall ms fuel s off,
-  Forall WfMember ms -> (List.length ms < fuel)%nat -> s_rest s = ms ->
-  (s_pos s + s_pend s = off)%Z -> (512 | off)%Z -> (0 <= off)%Z ->
-  (0 <= ilookup pad_pos_var (s_env s))%Z -> (0 <= ilookup pad_size_var (s_env s))%Z ->
-  (512 | ilookup pad_pos_var (s_env s))%Z ->
-  (ilookup pad_pos_var (s_env s) + padded (ilookup pad_size_var (s_env s)) = off)%Z ->
+(* the scan ends with the position and size of the LAST member the reader returned
+   (or the values it started with when there is none) *)
+Lemma scan_loop_last : forall fuel s, Forall RawOk (s_rest s) -> (List.length (s_rest s) < fuel)%nat ->
   exists env, scan_loop fuel s = Ok env /\
-    append_offset (ilookup pad_pos_var env) (ilookup pad_size_var env) = (off + stream_len ms)%Z.
+    (ilookup pad_pos_var env, ilookup pad_size_var env) =
+    List.last (body_starts (s_pos s + s_pend s) (s_rest s)) (ilookup pad_pos_var (s_env s), ilookup pad_size_var (s_env s)).
 Proof.
-  induction ms as [|m ms IH]; intros fuel s off W F R P D N Pp Ps Dp I;
-    (destruct fuel as [|fuel]; [simpl in F; lia|]); cbn [scan_loop].
-  - destruct (body_eof s R) as (s' & -> & Ee). exists (s_env s'). split; [reflexivity|].
-    rewrite Ee. rewrite append_offset_aligned by assumption. cbn [stream_len]. lia.
-  - pose proof (Forall_inv W) as Wm. pose proof (Forall_inv_tail W) as W'. destruct (body_member s m ms R) as (s' & -> & R' & P' & Pe' & Ep & Es).
-    destruct Wm as [H1 H2]. destruct (padded_spec _ H2) as (Dm & Lm & _).
-    destruct (IH fuel s' (off + member_len m)%Z W') as (env & A & B).
-    + simpl in F. lia.
-    + exact R'.
-    + rewrite P', Pe'. unfold member_len. lia.
-    + apply Z.divide_add_r; [exact D | apply member_len_spec; split; assumption].
-    + pose proof (member_len_spec m (conj H1 H2)). lia.
-    + rewrite Ep, P'. lia.
-    + rewrite Es. exact H2.
-    + rewrite Ep, P'. rewrite P. apply Z.divide_add_r; [exact D | apply Z.divide_factor_l].
-    + rewrite Ep, Es, P'. unfold member_len. lia.
-    + exists env. split; [exact A|]. rewrite B. cbn [stream_len]. lia.
+  induction fuel as [|fuel IH]; intros s W F; [lia|].
+  cbn [scan_loop]. pose proof (body_iteration s W) as BI. pose proof (rd_next_spec _ (s_pos s) (s_pend s) W) as S1.
+  destruct (rd_next (s_rest s) (s_pos s) (s_pend s)) as [[[res rest] p] pe]. destruct res.
+  - destruct BI as (s' & -> & R & P & Pe & Ep & Es). destruct S1 as (B & _ & N & W').
+    destruct (IH s') as (env & A & L); [rewrite R; exact W'|rewrite R; lia|].
+    exists env. split; [exact A|]. rewrite L, R, P, Pe, Ep, Es, B. rewrite last_cons_default. reflexivity.
+  - destruct BI as (s' & -> & Ee). destruct S1 as [B _]. exists (s_env s'). split; [reflexivity|].
+    rewrite B, Ee. reflexivity.
+  - contradiction.
 Qed.
 
-(* FULL STATEMENT: for every member list (any number of members, any header extension
-   blocks, any sizes) the offset BuildIndex seeks to is the offset of the first
-   end-of-archive block; in particular the scan never fails, panics or runs out of fuel *)
-Lemma scan_offset_is_end_of_archive ms : Forall WfMember ms -> scan_offset ms = Ok (stream_len ms).
+(* ---- layout arithmetic: the end of the last member is the end of the stream ------------- *)
+Lemma ends_ok_body_nonempty : forall rs off, rs <> [] -> EndsOk rs -> body_starts off rs <> [].
 Proof.
-  intro W. unfold scan_offset, scan_start. change scan_rewinds with true. cbv iota.
-  destruct (scan_loop_inv ms (S (S (List.length ms)))
-              {| s_rest := ms; s_pos := 0; s_pend := 0; s_cur := None; s_err := ENone; s_env := [] |} 0%Z W) as (env & -> & B);
-    try reflexivity; try (cbn; lia); try (cbn; apply Z.divide_0_r).
-  cbn [rbind]. rewrite B. reflexivity.
+  induction rs as [|r t IH]; intros off Hne E; [congruence|].
+  cbn [body_starts]. destruct t as [|r2 t].
+  - cbn [EndsOk] in E. destruct (r_kind r); try discriminate. contradiction.
+  - assert (body_starts (off + rec_len r) (r2 :: t) <> []) by (apply IH; [discriminate|exact E]).
+    destruct (r_kind r); try discriminate. assumption.
 Qed.
 
-(* what the reader reports on the way (used by the correspondence with archive/tar) *)
+Lemma last_cons_nonempty {A} (x : A) l d : l <> [] -> List.last (x :: l) d = List.last l d.
+Proof. destruct l; [congruence|reflexivity]. Qed.
+
+Lemma last_member_end : forall rs off d, rs <> [] -> Forall RawOk rs -> EndsOk rs ->
+  (512 | off)%Z -> (0 <= off)%Z ->
+  (let '(p, z) := List.last (body_starts off rs) d in append_offset p z) = (off + stream_len rs)%Z.
+Proof.
+  induction rs as [|r t IH]; intros off d Hne W E D N; [congruence|].
+  pose proof (Forall_inv W) as Wr. pose proof (Forall_inv_tail W) as Wt.
+  destruct (rec_len_spec r Wr) as [Dr Pr].
+  destruct t as [|r2 t].
+  - cbn [EndsOk] in E. cbn [body_starts stream_len List.last]. unfold rec_len, data_len in *. unfold RawOk in Wr.
+    destruct (r_kind r) eqn:K; cbn [List.last].
+    + replace (off + 512)%Z with (off + 512 + 0)%Z by lia.
+      rewrite append_offset_from_boundary; try lia. * replace (0 + r_size r)%Z with (r_size r) by lia. lia. * apply Z.divide_add_r; [exact D|exists 1%Z; lia].
+    + rewrite E. replace (off + 512)%Z with (off + 512 + 0)%Z by lia.
+      rewrite append_offset_from_boundary; try lia. * change (padded (0 + 0)) with 0%Z. lia. * apply Z.divide_add_r; [exact D|exists 1%Z; lia].
+    + contradiction.
+    + rewrite append_offset_from_boundary; try lia. * rewrite Z.add_0_r. lia. * apply Z.divide_add_r; [exact D|exists 1%Z; lia].
+  - assert (NE : body_starts (off + rec_len r) (r2 :: t) <> []) by (apply ends_ok_body_nonempty; [discriminate|exact E]).
+    assert (IH' := fun d' => IH (off + rec_len r)%Z d' ltac:(discriminate) Wt E (Z.divide_add_r _ _ _ D Dr) ltac:(lia)).
+    change (stream_len (r :: r2 :: t)) with (rec_len r + stream_len (r2 :: t))%Z.
+    change (body_starts off (r :: r2 :: t)) with
+      (let rest := body_starts (off + rec_len r) (r2 :: t) in
+       match r_kind r with KExt => rest | KGlobal => (off + 512 + r_size r, 0)%Z :: rest | _ => (off + 512, r_size r)%Z :: rest end).
+    cbv zeta. destruct (r_kind r); rewrite ?(last_cons_nonempty _ _ _ NE), IH'; lia.
+Qed.
+
+(* FULL STATEMENT: for every stream of header records archive/tar accepts (any number of
+   members, PAX / GNU extension records with any data sizes, global headers, header-only
+   members) whose last record is a member whose data is what hdr.Size says, the offset
+   BuildIndex seeks to is the offset of the first end-of-archive block; in particular the
+   scan never fails, panics or runs out of fuel *)
+Lemma scan_offset_is_end_of_archive rs : Forall RawOk rs -> EndsOk rs -> scan_offset rs = Ok (stream_len rs).
+Proof.
+  intros W E. unfold scan_offset, scan_start. change scan_rewinds with true. cbv iota.
+  destruct (scan_loop_last (S (S (List.length rs)))
+              {| s_rest := rs; s_pos := 0; s_pend := 0; s_cur := None; s_err := ENone; s_env := [] |} W) as (env & -> & L);
+    [cbn; lia|].
+  cbn [rbind s_pos s_pend s_rest s_env] in *. f_equal.
+  change (0 + 0)%Z with 0%Z in L.
+  destruct rs as [|r t]; [cbn [body_starts List.last] in L; apply (f_equal (fun pz => append_offset (fst pz) (snd pz))) in L; cbn [fst snd] in L; rewrite L; reflexivity|].
+  pose proof (last_member_end (r :: t) 0%Z (ilookup pad_pos_var [], ilookup pad_size_var []) ltac:(discriminate) W E (Z.divide_0_r _) ltac:(lia)) as M.
+  rewrite <- L in M. exact M.
+Qed.
+
 Lemma stream_len_app a b : stream_len (a ++ b) = (stream_len a + stream_len b)%Z.
 Proof. induction a as [|m a IH]; cbn [app stream_len]; [reflexivity | rewrite IH; lia]. Qed.
 
 (* without the rewind the scan would see no member at all and the appended data would
    overwrite the archive from its start *)
-Lemma no_rewind_offset_zero ms :
-  (do env <- scan_loop (S (S (List.length ms)))
-       {| s_rest := []; s_pos := stream_len ms + 1024; s_pend := 0; s_cur := None; s_err := ENone; s_env := [] |};
+Lemma no_rewind_offset_zero rs :
+  (do env <- scan_loop (S (S (List.length rs)))
+       {| s_rest := []; s_pos := stream_len rs + 1024; s_pend := 0; s_cur := None; s_err := ENone; s_env := [] |};
    Ok (append_offset (ilookup pad_pos_var env) (ilookup pad_size_var env))) = Ok 0%Z.
 Proof. reflexivity. Qed.
+
+(* outside the envelope: a last member of a header-only type whose size field is not zero
+   makes the scan overshoot (the bytes hdr.Size counts are not in the archive), and a
+   dangling extension header is overwritten *)
+Lemma scan_offset_header_only_size :
+  scan_offset [{| r_kind := KFile; r_size := 10 |}; {| r_kind := KHeaderOnly; r_size := 100 |}] = Ok 2048%Z /\
+  stream_len [{| r_kind := KFile; r_size := 10 |}; {| r_kind := KHeaderOnly; r_size := 100 |}] = 1536%Z /\
+  scan_offset [{| r_kind := KFile; r_size := 10 |}; {| r_kind := KExt; r_size := 10 |}] = Ok 1024%Z /\
+  stream_len [{| r_kind := KFile; r_size := 10 |}; {| r_kind := KExt; r_size := 10 |}] = 2048%Z.
+Proof. vm_compute. repeat split. Qed.
